@@ -260,3 +260,38 @@ def uses(d, pred):
             if k in it and pred(it[k]):
                 return True
     return False
+
+
+def breakpoints(d):
+    """separations at which the selected range of definition d (or of a nested definition) changes: the
+    function may be discontinuous there, so a grid point within rounding distance of one is ill-conditioned"""
+    out = set()
+    for marker, start, it in d['ranges']:
+        s = 0.0 if marker is None else start
+        if s != float('-inf'):
+            out.add(s)
+        out |= _bp_item(it)
+    return out
+
+
+def _bp_item(it):
+    out = set()
+    if 'mod' in it:
+        if it['mod'] == 'trans':
+            out |= set(b - it['x'] for b in breakpoints(it['args'][0]))
+        elif it['mod'] == 'spline':
+            if it.get('first') and it['first'][1] != float('-inf'):
+                out.add(it['first'][1])
+            elif not it.get('first'):
+                out.add(0.0)
+        else:
+            for a in it['args']:
+                out |= breakpoints(a)
+    return out
+
+
+def near_breakpoint(bps, r, tol=1e-6):
+    for b in bps:
+        if abs(r - b) <= tol:
+            return True
+    return False
